@@ -13,6 +13,8 @@ import dec_engine as de
 CUSTOMS = [
     ({"C": 6, "N": 5, "O": 3, "N+1": 1, "?": 3}, {"C": 6, "N": 5, "O": 3, "N+1": 1, "?": 3}),   # valid, looser than default for C N O
     ({"C": 2, "N+1": 1, "O": 1, "?": 3}, {"C": 2, "N+1": 1, "O": 1, "?": 3}),          # valid
+    # a sub-table of the default preset with the same values: going from "default" to it REMOVES keys and changes no value
+    ({"C": 4, "N": 3, "O": 2, "?": 8}, {"C": 4, "N": 3, "O": 2, "?": 8}),
     ({"?": 1}, {"?": 1}),                                                               # valid, everything by default
     ({"C": 4, "N": 3}, {"C": 4, "N": 3}),                                               # missing '?'
     ({"C": 4, "Xx": 1, "?": 8}, {"C": 4, "Xx": 1, "?": 8}),                             # malformed key after a good one
